@@ -4,6 +4,7 @@ import (
 	"fmt"
 
 	"github.com/freeconf/yang/fc"
+	"github.com/freeconf/yang/meta"
 	"github.com/freeconf/yang/val"
 )
 
@@ -69,6 +70,15 @@ func (self WithDefaults) CheckFieldPostConstraints(r FieldRequest, hnd *ValueHan
 	}
 	if !r.Meta.HasDefault() {
 		return true, nil
+	}
+	if list, inList := r.Meta.Parent().(*meta.List); inList {
+		for _, k := range list.KeyMeta() {
+			if k == r.Meta {
+				// a default the type of a key leaf may have is ignored (RFC7950 Sec 7.8.2); an
+				// entry without its key would not be an entry
+				return true, nil
+			}
+		}
 	}
 
 	// Only way to get here is if we're in WithDefaultsTrim so we want to return nil if value
